@@ -218,25 +218,34 @@ class _AioConn:
 class _TwistedTcpConn:
     def __init__(self, store, framer, ignore_missing):
         from twisted.test.proto_helpers import StringTransport
+
+        class Rec(StringTransport):
+            def __init__(self):
+                StringTransport.__init__(self)
+                self.writes = []
+
+            def write(self, data):
+                self.writes.append(list(data))
+                StringTransport.write(self, data)
+
         fac = stw.ModbusServerFactory(store, framer=framelib.FRAMERS[framer], ignore_missing_slaves=ignore_missing)
         fac.control.ListenOnly = False
         self.p = stw.ModbusTcpProtocol()
         self.p.factory = fac
-        self.tr = StringTransport()
+        self.tr = Rec()
         self.p.makeConnection(self.tr)
 
     def feed(self, chunk):
         if self.tr.disconnecting:      # the protocol dropped the connection: the reactor delivers nothing more
             return [], None
-        self.tr.clear()
+        self.tr.writes = []
         esc = None
         self.p.factory.control.ListenOnly = False     # listen-only mode (diagnostic sub-function 4) is outside the model
         try:
             self.p.dataReceived(bytes(chunk))
         except Exception as e:  # noqa
             esc = errkind(e)
-        v = self.tr.value()
-        return ([list(v)] if v else []), esc
+        return self.tr.writes, esc
 
     def alive(self):
         return not self.tr.disconnecting
